@@ -4,6 +4,7 @@ import DswModel.Model.Graphized
 import DswModel.Model.Spiderweb
 import DswModel.Model.Biofilter
 import DswModel.Model.Capacity
+import DswModel.Model.CapacityF
 import DswModel.Model.Shuffle
 import DswModel.Py.Wire
 import DswModel.Gen.Operation
@@ -240,6 +241,20 @@ def step (line : String) : String :=
     | some (res, recs) =>
       "ok " ++ ",".intercalate (res.map showScaled) ++ " " ++
         ";".intercalate (recs.map fun r => ",".intercalate (r.map showScaled))
+  | ["capf", a, tol, maxIter, vecs, _seed] =>
+    -- approximate_capacity in double precision: every number is the exact fraction `n/d` of a double
+    let parseD (s : String) : Dbl := match s.splitOn "/" with
+      | [n, d] => ⟨parseIntD n, parseNatD d⟩
+      | _ => ⟨parseIntD s, 1⟩
+    let showD (x : Dbl) : String :=
+      let g : Int := Int.gcd x.num x.den
+      if g > 0 then toString (x.num / g) ++ "/" ++ toString ((x.den : Int) / g) else "0/1"
+    let starts := (vecs.splitOn ";").map fun v => ((v.splitOn ",").map parseD).toArray
+    match approximateCapacityF (parseAcc a) (parseD tol) (parseNatD maxIter) starts with
+    | none => "err OUT_OF_FUEL"
+    | some (res, recs) =>
+      "ok " ++ ",".intercalate (res.map showD) ++ " " ++
+        ";".intercalate (recs.map fun r => ",".intercalate (r.map showD))
   | ["shuf", k, seed] =>
     showR (fun t => String.join (t.map fun r => String.join (r.map toString)))
       (createRandomShufflesSeeded (parseNatD k) (parseNatD seed))
